@@ -11,6 +11,7 @@ import (
 	"time"
 
 	semart "github.com/goplus/llgo/runtime/internal/lib/runtime"
+	vatomic "github.com/goplus/llgo/runtime/internal/lib/sync/atomic"
 	rt "github.com/goplus/llgo/runtime/internal/runtime"
 	"github.com/goplus/llgo/runtime/syncx"
 	"github.com/goplus/llgo/runtime/vs"
@@ -373,6 +374,31 @@ func main() {
 				res.Violations = append(res.Violations, Violation{Key: v.Key, What: v.What, Scenario: v.Scenario, Choices: v.Choices, Mode: *mode})
 			}
 		}, func() { res.TimedOut = true })
+	case "value":
+		vatomic.RunValueFamily(*family, *shard, *nshards, b, deadline, func(scen int, execs, points, dead, horiz int64, nout int, capped bool, depth int, sample string, v *vatomic.VViol) {
+			res.Scenarios += scen
+			res.Execs += execs
+			res.Points += points
+			res.Deadlocks += dead
+			res.Horizons += horiz
+			res.Outcomes += int64(nout)
+			if nout > 1 {
+				res.MultiOut++
+			}
+			if capped {
+				res.Capped++
+			}
+			if depth > res.MaxDepth {
+				res.MaxDepth = depth
+			}
+			if sample != "" && len(res.Samples) < 3 {
+				res.Samples = append(res.Samples, sample)
+			}
+			if v != nil && len(res.Violations) < 50 {
+				res.Violations = append(res.Violations, Violation{Key: v.Key, What: v.What, Scenario: v.Scenario, Choices: v.Choices, Mode: *mode})
+			}
+		}, func() { res.TimedOut = true })
+		res.RefOutcomes = vatomic.LinDistinct
 	case "replay":
 		data, err := os.ReadFile(*replay)
 		if err != nil {
@@ -404,6 +430,11 @@ func main() {
 				if i == 1 {
 					fmt.Println(outs[1])
 					fmt.Println("allowed outcomes:", rt.SortedKeys(ref))
+				}
+			case "value":
+				outs = append(outs, vatomic.ReplayValue(sj, v.Choices, *spur, i == 1))
+				if i == 1 {
+					fmt.Println(outs[1])
 				}
 			case "sync":
 				outs = append(outs, syncx.Replay(sj, v.Choices, *spur, i == 1))
